@@ -10,13 +10,16 @@ import (
 
 // ---- stubs -------------------------------------------------------------------------------
 
-var zzLeaf [32]*chainhash.Hash
-var zzMatched [32]bool
+var zzLeaf [512]*chainhash.Hash
+var zzMatched [512]bool
 
 // transactions are tagged by their Version field
-func zzStubTxHash(tx *wire.MsgTx) chainhash.Hash { return *zzLeaf[tx.Version&31] }
+func zzStubTxHash(tx *wire.MsgTx) chainhash.Hash { return *zzLeaf[tx.Version&511] }
 
-func zzStubMatchTx(f *bloom.Filter, tx *bchutil.Tx) bool { return zzMatched[tx.MsgTx().Version&31] }
+func zzStubMatchTx(f *bloom.Filter, tx *bchutil.Tx) bool { return zzMatched[tx.MsgTx().Version&511] }
+
+// zzPattern: 0 = every subset (case split per transaction), 1..4 = structured subsets for large n
+var zzPattern int
 
 // zzBlock: n transactions with symbolic ids (first byte is a distinct concrete tag so that
 // different transactions never share an id) and a concrete, case-split matched subset.
@@ -27,10 +30,24 @@ func zzBlock(n int) *bchutil.Block {
 	copy(mb.Header.PrevBlock[:], vBytes("prev", 32))
 	for i := 0; i < n; i++ {
 		h := &chainhash.Hash{}
-		copy(h[:], vBytes("txid", 32))
+		if vParam("concretehashes", 0) == 0 {
+			copy(h[:], vBytes("txid", 32))
+		}
 		h[0] = byte(i + 1)
+		h[1] = byte((i + 1) >> 8)
 		zzLeaf[i] = h
-		zzMatched[i] = vCase("matched", 0, 1) == 1
+		switch zzPattern {
+		case 0:
+			zzMatched[i] = vCase("matched", 0, 1) == 1
+		case 1:
+			zzMatched[i] = true // full set
+		case 2:
+			zzMatched[i] = i%2 == 0 // every second transaction
+		case 3:
+			zzMatched[i] = i == n-1 // right edge
+		case 4:
+			zzMatched[i] = false // empty set
+		}
 		mb.Transactions = append(mb.Transactions, &wire.MsgTx{Version: int32(i)})
 	}
 	return bchutil.NewBlock(mb)
@@ -138,6 +155,10 @@ func zzCheckMsg(tag string, n int, msg *wire.MsgMerkleBlock, idx []uint32, hdr w
 // ZZ_C11_build: the three builders on every subset of an n-transaction block.
 func ZZ_C11_build() {
 	n := vCase("ntx", vParam("minn", 1), vParam("maxn", 4))
+	zzPattern = 0
+	if vParam("structured", 0) == 1 {
+		zzPattern = vCase("pattern", 1, 4)
+	}
 	block := zzBlock(n)
 	hdr := block.MsgBlock().Header
 	switch vCase("builder", 0, 2) {
